@@ -715,6 +715,7 @@ func (m *mappedFile) newCounter(name string) (v *atomic.Uint64, m1 *mappedFile, 
 			// indicates that the underlying file was somehow truncated, or the
 			// recorded limit is corrupt.
 			debugFatalf("corrupt: limit %d exceeds file size %d", limit, datalen)
+			newM.close() // not yet m, so the deferred cleanup does not see it
 			return nil, nil, errCorrupt
 		}
 		// If m != orig, this is at least the second time around the loop
